@@ -230,7 +230,7 @@ var (
 		{"cnfraw", 5, "own", nil}, {"splicecnf", 8, "own", nil}, {"rectok", 5, "own", nil}, {"lit", 3, "", nil}, {"empty", 3, "", nil}}
 	poolRec = []sc{{"rectok", 50, "own", tokenMuts}, {"rectok", 8, "other", tokenMuts}, {"recsel", 4, "own", nil}, {"recver", 4, "own", nil},
 		{"recraw", 5, "own", nil}, {"splicerec", 8, "own", nil}, {"cnftok", 5, "own", nil}, {"lit", 3, "", nil}, {"empty", 3, "", nil}}
-	poolTOTP = []sc{{"totp", 45, "own", totpMuts}, {"totp", 12, "other", nil}, {"totpprev", 6, "own", nil}, {"totpsess", 6, "", nil},
+	poolTOTP = []sc{{"totp", 45, "own", totpMuts}, {"totp", 12, "other", nil}, {"totpprev", 5, "own", nil}, {"totp-2", 6, "own", nil}, {"totp+2", 3, "own", nil}, {"totpsess", 6, "", nil},
 		{"rand6", 10, "", nil}, {"empty", 5, "", nil}, {"smsany", 5, "", nil}, {"lit", 4, "", nil}}
 	poolSMS = []sc{{"sms", 35, "own", nil}, {"sms", 12, "other", nil}, {"smssess", 15, "", nil}, {"smsany", 10, "", nil},
 		{"rand6", 10, "", nil}, {"empty", 4, "", nil}, {"totp", 4, "own", nil}, {"lit", 3, "", nil}}
@@ -356,7 +356,7 @@ func drawOp(t *rapid.T, kind string, e genEnv) Op {
 		}
 	case "totpconfirm":
 		op.A = rapid.IntRange(0, e.nAcct-1).Draw(t, "acct")
-		drawSecret(t, &op, e, []sc{{"totpsess", 55, "", nil}, {"totp", 15, "any", nil}, {"rand6", 15, "", nil}, {"empty", 8, "", nil}, {"lit", 7, "", nil}})
+		drawSecret(t, &op, e, []sc{{"totpsess", 50, "", nil}, {"totpsess-2", 8, "", nil}, {"totp", 15, "any", nil}, {"rand6", 15, "", nil}, {"empty", 8, "", nil}, {"lit", 7, "", nil}})
 	case "smsvalidate", "smsremove":
 		op.A = rapid.IntRange(0, e.nAcct-1).Draw(t, "acct")
 		if chance(t, "userec", 25) {
@@ -628,7 +628,7 @@ func drawSnippet(t *rapid.T, name string, e genEnv) []Op {
 				k := rapid.IntRange(0, 1).Draw(t, "k")
 				ops = append(ops, Op{K: "evstart", B: b, N: k}, Op{K: "evend", B: b, A: a, N: k, Src: pick(t, "evsrc", "evtok", "evtok", "sesstok", "empty"), SA: pick(t, "evwho", a, a, other)})
 			case "totpsetup":
-				ops = append(ops, Op{K: "totpsetup", B: b}, Op{K: "totpconfirm", B: b, A: a, Src: pick(t, "csrc", "totpsess", "totpsess", "totp", "rand6"), SA: a})
+				ops = append(ops, Op{K: "totpsetup", B: b}, Op{K: "totpconfirm", B: b, A: a, Src: pick(t, "csrc", "totpsess", "totpsess", "totpsess-2", "totp", "rand6"), SA: a})
 			case "smssetup-new":
 				ops = append(ops, Op{K: "smssetup", B: b, S: pick(t, "number", "+15550009", "+4477000")})
 			case "confirm-sess":
